@@ -7,3 +7,4 @@ open Servlin.C11
 #print axioms C11_format_full_false
 #print axioms C11_format_partial_message
 #print axioms C11_legacy_empty_terminates
+#print axioms C11_custom_type_one_line
